@@ -59,7 +59,8 @@ Definition srt_render_cue (crlf : bool) (c : srt_cue) : str :=
 
 Definition srt_render (crlf : bool) (cues : list srt_cue) : str := flat_map (srt_render_cue crlf) cues.
 
-Definition no_linebreak (l : str) : bool := forallb (fun c => negb (is_linebreak c)) l.
+(* a line of a document: no LF, no CR (every other character, U+2028 and VT included, is text) *)
+Definition no_linebreak (l : str) : bool := forallb (fun c => negb ((c =? 10) || (c =? 13))) l.
 Definition visible_line (l : str) : bool := match strip l with [] => false | _ => true end.
 Definition text_line_ok (l : str) : bool := no_linebreak l && visible_line l.
 
